@@ -51,3 +51,52 @@ def twoLetter : List Ranges := [
   ranges_category_CONTROL, ranges_category_FORMAT, ranges_category_PRIVATE_USE, ranges_category_UNASSIGNED]
 
 end PestModel.Unicode
+
+namespace PestModel.Unicode
+open PestModel.Gen.Unicode
+
+/-- the grouped general categories with their members. -/
+def groups : List (Ranges × List Ranges) := [
+  (ranges_category_LETTER, [ranges_category_UPPERCASE_LETTER, ranges_category_LOWERCASE_LETTER, ranges_category_TITLECASE_LETTER,
+    ranges_category_MODIFIER_LETTER, ranges_category_OTHER_LETTER]),
+  (ranges_category_CASED_LETTER, [ranges_category_UPPERCASE_LETTER, ranges_category_LOWERCASE_LETTER, ranges_category_TITLECASE_LETTER]),
+  (ranges_category_MARK, [ranges_category_NONSPACING_MARK, ranges_category_SPACING_MARK, ranges_category_ENCLOSING_MARK]),
+  (ranges_category_NUMBER, [ranges_category_DECIMAL_NUMBER, ranges_category_LETTER_NUMBER, ranges_category_OTHER_NUMBER]),
+  (ranges_category_PUNCTUATION, [ranges_category_CONNECTOR_PUNCTUATION, ranges_category_DASH_PUNCTUATION,
+    ranges_category_OPEN_PUNCTUATION, ranges_category_CLOSE_PUNCTUATION, ranges_category_INITIAL_PUNCTUATION,
+    ranges_category_FINAL_PUNCTUATION, ranges_category_OTHER_PUNCTUATION]),
+  (ranges_category_SYMBOL, [ranges_category_MATH_SYMBOL, ranges_category_CURRENCY_SYMBOL, ranges_category_MODIFIER_SYMBOL,
+    ranges_category_OTHER_SYMBOL]),
+  (ranges_category_SEPARATOR, [ranges_category_SPACE_SEPARATOR, ranges_category_LINE_SEPARATOR, ranges_category_PARAGRAPH_SEPARATOR]),
+  (ranges_category_OTHER, [ranges_category_CONTROL, ranges_category_FORMAT, ranges_category_SURROGATE,
+    ranges_category_PRIVATE_USE, ranges_category_UNASSIGNED])]
+
+/-- every group equals the union of its members. -/
+def groupsCheck : Bool := groups.all fun (g, parts) => bitsOf g == unionBits (parts.map bitsOf)
+
+def scripts : List Ranges := sets_script.map (·.2)
+
+/-- `by_name`: the first entry (binary, then category, then script) whose upper-cased name is `n`. -/
+def allByName : List (String × String × String) :=
+  byName_binary.map (fun e => ("binary", e.1, e.2)) ++ byName_category.map (fun e => ("category", e.1, e.2)) ++
+    byName_script.map (fun e => ("script", e.1, e.2))
+
+def byName (n : String) : Option (String × String) :=
+  (allByName.find? fun e => e.2.1.toUpper == n).map fun e => (e.1, e.2.2)
+
+/-- an advertised name of a group resolves, through `by_name`, to the constant of the same name in
+the same file — the one the function `pest::unicode::NAME` reads. -/
+def namesCheck : Bool :=
+  advertised_binary.all (fun n => byName n == some ("binary", n) && consts_binary.contains n) &&
+  advertised_category.all (fun n => byName n == some ("category", n) && consts_category.contains n) &&
+  advertised_script.all (fun n => byName n == some ("script", n) && consts_script.contains n)
+
+def advertised : List String := advertised_binary ++ advertised_category ++ advertised_script
+
+/-- the table behind an advertised name (used by the grammar driver for built-in rules). -/
+def tableOf (n : String) : Option Ranges :=
+  match byName n with
+  | some (g, c) => table g c
+  | none => none
+
+end PestModel.Unicode
